@@ -6,7 +6,7 @@ import (
 	"verif/gen"
 )
 
-var LoopKinds = []string{"for", "while", "dowhile", "foreach"}
+var LoopKinds = []string{"for", "while", "dowhile", "foreach", "foreachk"}
 
 // MkLoop builds a loop of the given kind running `iters` times; idx is the expression
 // naming its iteration variable.
@@ -21,6 +21,15 @@ func MkLoop(kind, id string, iters int, body []gen.Stmt) (gen.Stmt, *gen.Var) {
 	case "dowhile":
 		v := &gen.Var{Name: "g" + id, T: gen.TInt}
 		return &gen.DoWhile{Guard: v.Name, Limit: iters, Cond: &gen.BoolLit{B: true}, Body: body}, v
+	case "foreachk":
+		// foreach over a string-keyed literal (a different iteration path in the interpreter)
+		v := &gen.Var{Name: "v" + id, T: gen.TInt}
+		m := &gen.MapLit{}
+		for i := 0; i < iters; i++ {
+			m.Keys = append(m.Keys, []string{"a", "b", "k", "xy", "id"}[i%5])
+			m.Vals = append(m.Vals, &gen.IntLit{V: int64(i)})
+		}
+		return &gen.Foreach{Src: m, KeyVar: "q" + id, ValVar: v.Name, Body: body}, v
 	default:
 		v := &gen.Var{Name: "v" + id, T: gen.TInt}
 		a := &gen.ArrLit{}
@@ -180,7 +189,7 @@ func buildNest(kinds []string, exit string, level int, pos string) *gen.Program 
 	nest := build(0)
 	var tail []gen.Expr
 	for i, iv := range idxs {
-		if lps[i].kind != "foreach" {
+		if lps[i].kind != "foreach" && lps[i].kind != "foreachk" {
 			tail = append(tail, iv, &gen.StrLit{S: ","})
 		}
 	}
